@@ -47,6 +47,17 @@ class Session(BusSession):
         self.connect_slot('O')
         self.issued.add(self.uname['O'])
         self.take('O')
+        # a monitor is a receiver too: it sees every message the bus processes, including those of connections that
+        # have not said Hello and messages the bus refuses
+        self.connect_slot('M')
+        self.issued.add(self.uname['M'])
+        s_, rep = self.method('M', 'BecomeMonitor', [R.A('s', []), R.U(0)], iface=b'org.freedesktop.DBus.Monitoring')
+        if rep is None or rep.kind != R.MT_RETURN:
+            raise RuntimeError('BecomeMonitor refused: %r' % (rep,))
+        s_, rep = self.method('O', 'ListNames', [])
+        self.mon_listed = self.uname['M'] in rep.args()[0]
+        for x in list(self.inbox):
+            self.take(x)
         self.token = 0
 
     def config(self):
@@ -106,6 +117,20 @@ class Session(BusSession):
             m.fields.append((R.F_CONTAINER_INSTANCE, (b'o', b'/forged/instance')))
         return m
 
+    def check_monitor(self, out, opdesc):
+        """Everything the monitor was shown: no field code above 9, no forged sender value.  (The SENDER the bus puts on
+        a message of a connection that has no unique name yet is not specified and not judged.)"""
+        for o in self.take('M'):
+            m = o.msg
+            codes = [c for c, _ in m.fields]
+            self.hit('monitor-saw')
+            if any(c > 9 for c in codes):
+                bad = [c for c in codes if c > 9]
+                out.append(Violation('forged-field-relayed', 'monitor:field-%s' % ('cinst' if 10 in bad else 'unknown'),
+                                     '%s: the monitor received a message with header field codes %r: %r' % (opdesc, bad, o), None))
+            if m.sender == b':9.99':
+                out.append(Violation('wrong-sender', 'monitor:forged', '%s: the monitor received the forged SENDER value: %r' % (opdesc, o), None))
+
     def check_received(self, writer, m_sent, out, opdesc):
         """Inspect every inbox after one message was written by `writer`."""
         true_sender = self.uname.get(writer)
@@ -129,9 +154,12 @@ class Session(BusSession):
                     if [R.canon_value(v) for v in m.body] != [R.canon_value(v) for v in m_sent.body] or m.mtype != m_sent.mtype or m.serial != m_sent.serial:
                         out.append(Violation('field-changed', 'body', '%s: body/type/serial changed in transit' % opdesc, None))
                 else:
-                    # not a copy of the client's message: must be bus-originated
-                    if m.sender != R.BUS:
-                        if m.sender is None and l == writer and m.mtype in (R.MT_ERROR, R.MT_RETURN):
+                    # not a copy of the client's message: must be bus-originated (the monitor is also shown the other
+                    # clients' own traffic with the bus, e.g. the observer's queries: those carry their true unique names)
+                    if l == 'M' and m.sender is not None and m.sender in set(self.uname.values()):
+                        self.hit('monitor-other-traffic')
+                    elif m.sender != R.BUS:
+                        if m.sender is None and l in (writer, 'M') and m.mtype in (R.MT_ERROR, R.MT_RETURN):
                             self.hit('reply-without-sender')
                             v = Violation('wrong-sender', 'bus-reply-without-sender', '%s: %s received a bus-generated reply with no SENDER: %r' % (opdesc, l, o), None)
                             v.resynced = v.fingerprint in known_fingerprints('C03')   # recorded finding, nothing to re-synchronise: keep exploring
@@ -150,8 +178,14 @@ class Session(BusSession):
         elif kind == 'hello':
             c = self.slots[l]
             s = self.bus.next_serial(c)
-            self.send(l, R.bus_call(s, 'Hello'))
+            hm = R.bus_call(s, 'Hello')
+            # the Hello call itself carries every kind of forged field
+            hm.fields.append((R.F_SENDER, (b's', b':9.99')))
+            hm.fields.insert(1, (200, (b'(sv)', [(b's', b'forged'), (b'v', (b'u', 7))])))
+            hm.fields.append((R.F_CONTAINER_INSTANCE, (b'o', b'/forged/instance')))
+            self.send(l, hm)
             rep = self.take_reply(l, s)
+            self.check_monitor(out, 'Hello of %s with forged fields' % l)
             if self.state[l] == 'connected':
                 if rep is None or rep.kind != R.MT_RETURN:
                     out.append(Violation('hello', 'refused', 'first Hello of %s answered %r' % (l, rep), None))
@@ -183,7 +217,7 @@ class Session(BusSession):
                 self.take(x)
             # queries agree
             s, rep = self.method('O', 'ListNames', [])
-            want = sorted([R.BUS, self.uname['O']] + [self.uname[x] for x in self.registered()] + [wk(x) for x in self.registered()])
+            want = sorted([R.BUS, self.uname['O']] + ([self.uname['M']] if self.mon_listed else []) + [self.uname[x] for x in self.registered()] + [wk(x) for x in self.registered()])
             if rep is None or sorted(rep.args()[0]) != want:
                 out.append(Violation('query-disagrees', 'ListNames', 'ListNames=%r want %r' % (rep, want), None))
             for x in self.registered():
@@ -206,8 +240,12 @@ class Session(BusSession):
         if self.state[l] == 'connected':
             # anything but Hello before Hello: the connection is dropped and nobody sees the message
             m = self.build(l, 'signal', 'broadcast', 'none', None)
+            m.fields.append((R.F_SENDER, (b's', b':9.99')))
+            m.fields.insert(1, (200, (b'(sv)', [(b's', b'forged'), (b'v', (b'u', 7))])))
+            m.fields.append((R.F_CONTAINER_INSTANCE, (b'o', b'/forged/instance')))
             self.send(l, m)
             self.hit('send-before-hello')
+            self.check_monitor(out, 'message with forged fields written by %s before Hello' % l)
             for x in list(self.inbox):
                 for o in self.take(x):
                     if x != l and o.body and o.body[0] == m.body[0]:
